@@ -58,6 +58,9 @@ var verifLexSets = []verifLexSet{
 	21: {rules: []verifRule{{pat: `ab`, action: 1}, {pat: `ab`, action: 2}}},                 // identical rules: Compile must fail
 	22: {rules: []verifRule{{pat: `ab`, action: 1}, {pat: `abcd`, action: 2}}, nobt: true},   // needs backtracking: Compile must fail
 	23: {rules: []verifRule{{pat: `[a-b]*c`, action: 1}, {pat: `a`, action: 2}, {pat: `b+`, action: 3}}},
+	24: {rules: []verifRule{{pat: `ask`, action: 1}, {pat: `[j-l]+`, action: 2, prec: -1}, {pat: `[r-t]`, action: 3, prec: -2}}, bytes: true, fold: true}, // byte mode + case folding (k/K, s/S have non-ASCII fold partners)
+	25: {rules: []verifRule{{pat: `a`, action: 1}, {pat: `b`, action: 2}, {pat: `[ab]xy`, action: 3}}},                                                      // two accepting states entering the same non-accepting state
+	26: {rules: []verifRule{{pat: `[0-9]+`, action: 2}, {pat: `[0-9]+\.[0-9]+`, action: 3}}},
 }
 
 func verifCompileSet(set verifLexSet) (*Tables, []*Rule, error) {
